@@ -43,12 +43,44 @@ def emptiness_of_atom(a):
     return None
 
 
-def nonempty_evidence(atoms):
-    return any((r := emptiness_of_atom(a)) is not None and r[0] is False for a in atoms)
+def subject_denotes_variants(subj, cx=None, fw=None):
+    """does the emptiness of `subj` mean "the enum has no variants"?  The variant list itself, or a local stream to which the
+    loop over the variants appends (directly in the loop body: every variant contributes).  Without cx/fw only the first form can
+    be told; callers that have the handler at hand pass both."""
+    if _variants_term(subj):
+        return True
+    if cx is None or fw is None:
+        return True
+    if not (isinstance(subj, tuple) and subj and subj[0] == 'var'):
+        return False
+    from .terms import analyse_iter, strip_refs
+    tm = cx.gm.terms_of(fw)
+    d = tm.def_by_id(subj[1])
+    if d is None:
+        return False
+    for ev in fw.events:
+        if ev.kind == 'mcall' and ev.method in ('extend', 'push', 'append_all') and strip_refs(ev.recv)['k'] == 'Path':
+            r = strip_refs(ev.recv)
+            if len(r['path']['segs']) != 1 or ev.scope.lookup(r['path']['s']) is not d:
+                continue
+            loops = [c for c in ev.ctx if c['k'] in ('for', 'while', 'loop')]
+            if not loops or loops[-1]['k'] != 'for':
+                continue
+            try:
+                base = tm.term(analyse_iter(loops[-1]['iter']).base, loops[-1].get('scope') or ev.scope)
+            except Exception:
+                continue
+            if _variants_term(base):
+                return True
+    return False
 
 
-def empty_evidence(atoms):
-    return any((r := emptiness_of_atom(a)) is not None and r[0] is True for a in atoms)
+def nonempty_evidence(atoms, cx=None, fw=None):
+    return any((r := emptiness_of_atom(a)) is not None and r[0] is False and subject_denotes_variants(r[1], cx, fw) for a in atoms)
+
+
+def empty_evidence(atoms, cx=None, fw=None):
+    return any((r := emptiness_of_atom(a)) is not None and r[0] is True and subject_denotes_variants(r[1], cx, fw) for a in atoms)
 
 
 def is_emptiness_atom(a):
